@@ -11,15 +11,40 @@ import random
 from vlib import core, gates
 
 
+# event types are opaque strings (span names): separators, brackets, operator look-alikes
+HOSTILE_NAMES = ["lookup(user,key)", "retry,backoff", "GET /a b", "x->y", "+", "ταυ"]
+
+
 def _infer(families: list[list[str]]):
     from tel2puml.events import EventSet
     from tel2puml.logic_detection import calculate_logic_gates
     return calculate_logic_gates({EventSet(list(s)) for s in families})
 
 
-def judge_tree(tree) -> dict:
+def counted_twin(fam_list: list[list[str]]) -> list[list[str]]:
+    """The same family plus its largest set with one event twice: the same follower TYPES,
+    other multiplicities (what an event type on two parallel branches produces)."""
+    big = max(fam_list, key=len)
+    return fam_list + [[big[0]] + list(big)]
+
+
+def judge_tree(tree, counted_first: bool = False) -> dict:
     fam = gates.outcomes(tree)
     fam_list = sorted(sorted(s) for s in fam)
+    if counted_first:
+        # process history: an inference over the same types with counts > 1 ran before in
+        # this interpreter; the answer for the plain family may not depend on it
+        try:
+            _infer(counted_twin(fam_list))
+        except Exception:
+            pass
+    r = _judge_family(tree, fam, fam_list)
+    if counted_first:
+        r["history"] = "inference of the counted twin of this family ran first"
+    return r
+
+
+def _judge_family(tree, fam, fam_list) -> dict:
     try:
         pt = _infer(fam_list)
     except Exception as exc:
@@ -52,6 +77,9 @@ def judge_tree(tree) -> dict:
 def run_chunk(case: dict) -> dict:
     n, depth = case["n"], case["depth"]
     events = [chr(65 + i) for i in range(n)]
+    if case.get("names") == "hostile":
+        events = HOSTILE_NAMES[:n]
+    hist = {"after_counted_twin": 0}
     counts = {"held": 0, "in_class": 0, "exact_in_class": 0, "inexact_outside_class": 0,
               "exact_outside_class": 0, "skip": 0}
     fails, samples = [], []
@@ -67,10 +95,9 @@ def run_chunk(case: dict) -> dict:
         if idx_filter and idx % case["of"] != case["slice"]:
             continue
         total += 1
-        if isinstance(tree, str):
-            r = judge_tree(tree)
-        else:
-            r = judge_tree(tree)
+        counted_first = not isinstance(tree, str) and (idx // max(1, case["of"])) % 2 == 1
+        r = judge_tree(tree, counted_first)
+        hist["after_counted_twin"] += 1 if counted_first else 0
         d = gates.tree_depth(tree)
         depth_seen[d] = depth_seen.get(d, 0) + 1
         if r["verdict"] == "held":
@@ -122,6 +149,7 @@ def run_chunk(case: dict) -> dict:
                     sub_examples.append({"family": [sorted(s) for s in chosen],
                                          "inferred": gates.show_pt(pt)})
     return {"status": "ok", "n": total, "events": n, "sample": bool(case.get("sample")),
+            "hostile": case.get("names") == "hostile", "hist": hist,
             "counts": counts, "fails": fails,
             "samples": samples, "depths": depth_seen, "sub": sub, "sub_examples": sub_examples}
 
@@ -137,6 +165,16 @@ def build_cases(tier: str, seed: int) -> list[dict]:
                           "rng_seed": f"c06-{seed}-{n}-{sl}",
                           "sub_rate": 0.1 if n <= 5 else 0.02,
                           "uuid_seed": f"{seed}-{n}-{sl}"})
+    # the same enumeration over hostile event-type names (commas, blanks, brackets, operator
+    # look-alikes): complete for <= 4 events, one slice of the five-event trees
+    for n in (2, 3, 4):
+        cases.append({"n": n, "depth": 3, "slice": 0, "of": 1, "names": "hostile",
+                      "rng_seed": f"c06-{seed}-h{n}", "sub_rate": 0.0,
+                      "uuid_seed": f"{seed}-h{n}", "sample": True})
+    for i in range(2 if tier == "quick" else P):
+        cases.append({"n": 5, "depth": 3, "slice": (seed + i) % P, "of": P, "names": "hostile",
+                      "rng_seed": f"c06-{seed}-h5-{i}", "sub_rate": 0.0,
+                      "uuid_seed": f"{seed}-h5-{i}", "sample": True})
     if tier == "quick":
         # a seeded sample of the 6-event trees (complete in the thorough tier) and the flat
         # 7-event trees: inference cost and pseudo-log size grow with the number of parallel
@@ -183,7 +221,10 @@ def main(tier: str, seed: int) -> int:
             chk.note_inconclusive(f"worker: {r.get('status')} {r.get('detail')}")
             continue
         chk.evaluations += r["n"]
-        if r.get("sample"):
+        chk.count("trees_judged_after_counted_twin_inference", r["hist"]["after_counted_twin"])
+        if r.get("hostile"):
+            chk.count(f"trees_with_hostile_event_names_{r['events']}_events", r["n"])
+        elif r.get("sample"):
             chk.count(f"sampled_trees_with_{r['events']}_events", r["n"])
         else:
             per_size[r["events"]] = per_size.get(r["events"], 0) + r["n"]
@@ -258,6 +299,7 @@ def replay(path: str) -> int:
         data = json.load(fh)
     fam = data["case"]["family"]
     results, _ = core.run_workers("checks.c06", "run_replay", [{"family": fam,
+                                  "history": bool(data["case"].get("history")),
                                   "in_class": data["case"].get("in_class", False)}], nproc=1)
     print(json.dumps(results, indent=1))
     bad = any(r.get("bad") for r in results)
@@ -268,6 +310,11 @@ def replay(path: str) -> int:
 
 def run_replay(case: dict) -> dict:
     fam = frozenset(frozenset(s) for s in case["family"])
+    if case.get("history"):
+        try:
+            _infer(counted_twin(case["family"]))
+        except Exception:
+            pass
     pt = _infer(case["family"])
     adm = gates.admitted(pt)
     bad = bool(fam - adm) or (case["in_class"] and bool(adm - fam))
